@@ -19,6 +19,7 @@ import (
 	"math/rand/v2"
 	"reflect"
 	"strings"
+	"time"
 	"unsafe"
 
 	"github.com/pion/rtp"
@@ -358,6 +359,15 @@ func (r *runner) checkC06(pkts []*rtp.Packet, nextSeq *uint16, in, snapshot Fram
 
 // RoundTrip: C03 + C06 on k consecutive frames through one encoder/decoder pair.
 func RoundTrip(c *corr.Ctx, s *Spec, p EncParams, frames func(inst *Instance) []Frame, name string) {
+	c.Guard("C03", s.Name, map[string]any{"mode": "roundtrip", "codec": s.Name, "params": p, "case": name}, caseLimit,
+		func() { roundTrip(c, s, p, frames, name) })
+}
+
+// caseLimit is the watchdog limit of one codec case (encoders and decoders are loop-free per call:
+// a case that takes this long is a hang of the code under test).
+const caseLimit = 60 * time.Second
+
+func roundTrip(c *corr.Ctx, s *Spec, p EncParams, frames func(inst *Instance) []Frame, name string) {
 	inst, err := s.New(c.Rng, p)
 	if err != nil || inst.Enc == nil {
 		return
@@ -444,6 +454,11 @@ type tagged struct {
 
 // FaultStream: C07 on a stream of valid frames with drops, duplicates and swaps.
 func FaultStream(c *corr.Ctx, s *Spec, p EncParams, nframes int, name string) {
+	c.Guard("C07", s.Name, map[string]any{"mode": "fault", "codec": s.Name, "params": p, "case": name}, caseLimit,
+		func() { faultStream(c, s, p, nframes, name) })
+}
+
+func faultStream(c *corr.Ctx, s *Spec, p EncParams, nframes int, name string) {
 	inst, err := s.New(c.Rng, p)
 	if err != nil || inst.Enc == nil {
 		return
@@ -613,6 +628,18 @@ type HostileInput struct {
 // HostileStream: C08 on an arbitrary packet history.  When compare is false the model is not
 // consulted (very long streams whose only purpose is the retained-bytes bound).
 func HostileStream(c *corr.Ctx, s *Spec, inst *Instance, pkts []*rtp.Packet, compare bool, name, note string) {
+	var first []string
+	for i, p := range pkts {
+		if i >= 50 {
+			break
+		}
+		first = append(first, pktStr(p))
+	}
+	c.Guard("C08", s.Name, &HostileInput{Mode: "hostile", Codec: s.Name, Extra: inst.DInitExtra, Pkts: first, Note: note + " (watchdog)"}, 4*caseLimit,
+		func() { hostileStream(c, s, inst, pkts, compare, name, note) })
+}
+
+func hostileStream(c *corr.Ctx, s *Spec, inst *Instance, pkts []*rtp.Packet, compare bool, name, note string) {
 	r := &runner{c: c, s: s, inst: inst}
 	r.cs.Name = name
 	in := &HostileInput{Mode: "hostile", Codec: s.Name, Extra: inst.DInitExtra, Note: note}
